@@ -21,6 +21,20 @@ def run_history(rec: edits.Recorder, tid: int, seed: int, src: str, nsteps: int,
     script = []
     prev_raised = False
     for _ in range(nsteps):
+        if rng.random() < 0.12:
+            m = edits.plan_misc(rng, root.a)
+            if m is not None:
+                pre_src = root.src
+                exc = edits.execute_misc(m, root)
+                post = rec.state(root)
+                ev = edits.make_misc_event(m, exc, post)
+                trace['steps'].append(ev)
+                script.append({'pre_src': pre_src, 'plan': m.describe(), 'post_src': root.src,
+                               'exc': None if exc is None else f'{type(exc).__name__}: {exc}'})
+                prev_raised = False
+                if not post['srcOk'] or post['srcP'] != post['liveP']:
+                    break
+                continue
         plan = None
         for _try in range(5):
             plan = edits.plan_edit(rng, root.a)
